@@ -2,7 +2,8 @@
 //! fn: pallas_validate::phase1::{alonzo,babbage,conway}::check_tx_ex_units (via verif_hooks)
 //! stub: std::fmt::format -> empty String
 //! assume: general harnesses: every redeemer's mem and steps < 2^63, so that the validator's own u64 running sums cannot wrap with <= 2 redeemers; the wrap itself is isolated in c37_q_overflow_*
-//! outside: more than 2 redeemers (list) / 1 redeemer (map: BTreeMap with >= 2 entries is not decidable here); redeemer data other than an empty byte string; that validate_*_tx actually calls this check (sequencing, engine M)
+//! stub: conway only: <conway::Redeemers as Clone>::clone -> bitwise alias of the argument (the validator clones the redeemers, never mutates the clone and drops it; recursive PlutusData clone/drop glue on heap data has no verdict); the Vec<Redeemer> buffer is a stack array (Vec::from_raw_parts, capacity 0)
+//! outside: more than 2 redeemers (list); conway Redeemers::Map with >= 1 entries (tried: no verdict in 240 s, BTreeMap leaves are heap-held and the validator drops its clone; by reading the Map arm has the same never-driven `map` as the List arm); redeemer data other than an empty byte string; that validate_*_tx actually calls this check (sequencing, engine M)
 use crate::build::{al, ba, co, exu};
 use pallas_codec::utils::{Bytes, KeepRaw, NonEmptySet, Nullable};
 use pallas_primitives::{BoundedBytes, ExUnits, PlutusData, PlutusScript};
@@ -41,12 +42,21 @@ fn co_redeemer(small: bool) -> co::Redeemer {
 
 /// shared tail: Ok => both sums within the limits (sums in u128: the *mathematical* sum)
 macro_rules! conclude {
-    ($r:ident, $sum_mem:expr, $sum_steps:expr, $max:expr) => {{
+    (0, $r:ident, $sum_mem:expr, $sum_steps:expr, $max:expr) => {{
+        kani::cover!($r.is_ok(), "accepted");
+        conclude!(@tail $r, $sum_mem, $sum_steps, $max)
+    }};
+    ($n:tt, $r:ident, $sum_mem:expr, $sum_steps:expr, $max:expr) => {{
         let sm: u128 = $sum_mem;
         let ss: u128 = $sum_steps;
         kani::cover!($r.is_ok(), "accepted");
         kani::cover!($r.is_err(), "rejected");
         kani::cover!($r.is_ok() && sm == $max.mem as u128 && ss == $max.steps as u128 && sm > 0, "accepted exactly at the limit");
+        conclude!(@tail $r, $sum_mem, $sum_steps, $max)
+    }};
+    (@tail $r:ident, $sum_mem:expr, $sum_steps:expr, $max:expr) => {{
+        let sm: u128 = $sum_mem;
+        let ss: u128 = $sum_steps;
         if $r.is_ok() {
             assert!(sm <= $max.mem as u128, "Ok => sum of redeemer mem <= max_tx_ex_units.mem");
             assert!(ss <= $max.steps as u128, "Ok => sum of redeemer steps <= max_tx_ex_units.steps");
@@ -56,7 +66,7 @@ macro_rules! conclude {
 
 /// alonzo / babbage: redeemers are a Vec; `$n` redeemers, concrete per harness
 macro_rules! vec_era {
-    ($name:ident, $m:ident, $hook:path, $field:ident, $n:expr, $small:expr, $unw:expr) => {
+    ($name:ident, $m:ident, $hook:path, $field:ident, $n:tt, $small:expr, $unw:expr) => {
         #[kani::proof]
         #[kani::unwind($unw)]
         #[kani::stub(std::fmt::format, crate::stubs::fmt_format_stub)]
@@ -85,7 +95,7 @@ macro_rules! vec_era {
             let mut pp = $m::pp();
             pp.max_tx_ex_units = exu(kani::any(), kani::any());
             let r = $hook(&tx, &pp);
-            conclude!(r, sm, ss, pp.max_tx_ex_units);
+            conclude!($n, r, sm, ss, pp.max_tx_ex_units);
             core::mem::forget(r);
             core::mem::forget(pp);
             core::mem::forget(tx);
@@ -105,27 +115,38 @@ vec_era!(c37_t_babbage_list0_v2, ba, babbage::verif_hooks::check_tx_ex_units, pl
 vec_era!(c37_q_overflow_alonzo, al, alonzo::verif_hooks::check_tx_ex_units, plutus_script, 2, false, 5);
 vec_era!(c37_q_overflow_babbage, ba, babbage::verif_hooks::check_tx_ex_units, plutus_v2_script, 2, false, 5);
 
-/// conway, redeemers as a list of `$n`
+/// `<Redeemers as Clone>::clone` -> bitwise alias of the argument.  conway::check_tx_ex_units clones the
+/// redeemers and drops the clone; CBMC cannot decide the recursive clone / drop glue of a PlutusData
+/// that is read back from the heap (measured: a 1-element Vec<Redeemer> clone or drop alone: no
+/// verdict in 200 s).  A clone is by contract an equal value; the alias is only read and dropped.
+pub fn redeemers_alias_stub(r: &co::Redeemers) -> co::Redeemers {
+    unsafe { core::ptr::read(r) }
+}
+
+/// conway, redeemers as a list of `$n`.  The Vec<Redeemer> buffer is a stack array handed to
+/// Vec::from_raw_parts with capacity 0 (so neither the validator's drop of its "clone" nor anything
+/// else frees it): symex keeps stack objects field-sensitive, the drop glue then sees the concrete
+/// PlutusData variant.  The validator only iterates / clones / drops this Vec.
 macro_rules! conway_list {
-    ($name:ident, $field:ident, $n:expr, $small:expr, $unw:expr) => {
+    ($name:ident, $field:ident, $n:tt, $small:expr, $unw:expr) => {
         #[kani::proof]
         #[kani::unwind($unw)]
         #[kani::stub(std::fmt::format, crate::stubs::fmt_format_stub)]
+        #[kani::stub(<pallas_primitives::conway::Redeemers as std::clone::Clone>::clone, redeemers_alias_stub)]
         fn $name() {
             let raw = [0u8; 1];
             let mut w = co::wits();
             w.$field = NonEmptySet::from_vec(vec![script()]);
-            let mut reds = Vec::new();
+            let mut arr: [co::Redeemer; $n] = core::array::from_fn(|_| co_redeemer($small));
             let mut sm: u128 = 0;
             let mut ss: u128 = 0;
             let mut i = 0;
             while i < $n {
-                let r = co_redeemer($small);
-                sm += r.ex_units.mem as u128;
-                ss += r.ex_units.steps as u128;
-                reds.push(r);
+                sm += arr[i].ex_units.mem as u128;
+                ss += arr[i].ex_units.steps as u128;
                 i += 1;
             }
+            let reds = unsafe { Vec::from_raw_parts(arr.as_mut_ptr(), $n, 0) };
             w.redeemer = Some(KeepRaw::verif_from_parts(&raw, co::Redeemers::List(reds)));
             let tx = co::Tx {
                 transaction_body: KeepRaw::verif_from_parts(&raw, co::body()),
@@ -136,10 +157,11 @@ macro_rules! conway_list {
             let mut pp = co::pp();
             pp.max_tx_ex_units = exu(kani::any(), kani::any());
             let r = conway::verif_hooks::check_tx_ex_units(&tx, &pp);
-            conclude!(r, sm, ss, pp.max_tx_ex_units);
+            conclude!($n, r, sm, ss, pp.max_tx_ex_units);
             core::mem::forget(r);
             core::mem::forget(pp);
             core::mem::forget(tx);
+            core::mem::forget(arr);
         }
     };
 }
@@ -149,25 +171,20 @@ conway_list!(c37_q_conway_list0, plutus_v3_script, 0, true, 5);
 // bound: conway, one Plutus script (version concrete per harness), Redeemers::List of N = 1 / 2 redeemers with symbolic ex-units < 2^63, symbolic limits; unwind 5
 // finding: expected FAILED (lazy `map` closures are never driven: the sums stay 0)
 conway_list!(c37_q_conway_list1, plutus_v1_script, 1, true, 5);
-conway_list!(c37_t_conway_list2, plutus_v2_script, 2, true, 5);
+conway_list!(c37_q_conway_list2, plutus_v2_script, 2, true, 5);
 
-/// conway, redeemers as a one-entry map
-/// bound: conway, one PlutusV3 script, Redeemers::Map with exactly 1 entry (symbolic index, symbolic ex-units < 2^63), symbolic limits; unwind 5
-/// finding: expected FAILED (lazy `map` closures are never driven: the sums stay 0)
+/// conway, redeemers as an empty map (a one-entry map was tried: no verdict in 240 s -- the BTreeMap leaf is
+/// heap-held and the validator drops its clone, see `outside`)
+/// bound: conway, one PlutusV3 script, Redeemers::Map with 0 entries, symbolic limits; unwind 5
 #[kani::proof]
 #[kani::unwind(5)]
 #[kani::stub(std::fmt::format, crate::stubs::fmt_format_stub)]
-fn c37_q_conway_map1() {
+#[kani::stub(<pallas_primitives::conway::Redeemers as std::clone::Clone>::clone, redeemers_alias_stub)]
+fn c37_q_conway_map0() {
     let raw = [0u8; 1];
     let mut w = co::wits();
     w.plutus_v3_script = NonEmptySet::from_vec(vec![script()]);
-    let e = units(true);
-    let mut m = BTreeMap::new();
-    m.insert(
-        co::RedeemersKey { tag: co::RedeemerTag::Spend, index: kani::any() },
-        co::RedeemersValue { data: data(), ex_units: e },
-    );
-    w.redeemer = Some(KeepRaw::verif_from_parts(&raw, co::Redeemers::Map(m)));
+    w.redeemer = Some(KeepRaw::verif_from_parts(&raw, co::Redeemers::Map(BTreeMap::new())));
     let tx = co::Tx {
         transaction_body: KeepRaw::verif_from_parts(&raw, co::body()),
         transaction_witness_set: KeepRaw::verif_from_parts(&raw, w),
@@ -177,7 +194,7 @@ fn c37_q_conway_map1() {
     let mut pp = co::pp();
     pp.max_tx_ex_units = exu(kani::any(), kani::any());
     let r = conway::verif_hooks::check_tx_ex_units(&tx, &pp);
-    conclude!(r, e.mem as u128, e.steps as u128, pp.max_tx_ex_units);
+    conclude!(0, r, 0, 0, pp.max_tx_ex_units);
     core::mem::forget(r);
     core::mem::forget(pp);
     core::mem::forget(tx);
